@@ -127,6 +127,23 @@ Proof.
 Qed.
 Print Assumptions C08_args_private.
 
+(* The other read-only calls of the interface (ReadOnly: get_component_configuration in its not fully resolved modes
+   - raw, include_default=False, is_primitive, inject_missing_fields=False -, configurationForNode / getOptionForNode,
+   instance(platform), replicate(platform), validate(), copy(), the get_*_blueprint accessors, ...) are not
+   operations on the object either: the state is untouched, the document the queries are measured against
+   (doc_after) does not move, and the final state and every other observation of the history are those of the
+   history without the call.  Together with C08_fresh_from: a query that follows such calls still answers what the
+   description produced by the MUTATORS resolves to from scratch.  (The harness mirrors the first two conjuncts on
+   the real object: raw() and the cache labels before and after every read-only call.) *)
+Theorem C08_readonly_private : forall (dflt : jv) (st : state) (pre post : list op) (call : string) (d : doc),
+  step lit_matches dflt st (ReadOnly call) = (st, ODone) /\
+  doc_after d (pre ++ ReadOnly call :: post) = doc_after d (pre ++ post) /\
+  fst (run lit_matches dflt st (pre ++ ReadOnly call :: post)) = fst (run lit_matches dflt st (pre ++ post)) /\
+  snd (run lit_matches dflt st (pre ++ ReadOnly call :: post))
+    = (snd (run lit_matches dflt st pre) ++ ODone :: snd (run lit_matches dflt (fst (run lit_matches dflt st pre)) post))%list.
+Proof. intros. exact (history_readonly lit_matches dflt st pre post call d). Qed.
+Print Assumptions C08_readonly_private.
+
 (* The table of built-in defaults is not an unknown: V.Cache.Generated.real_dflt is printed from
    FlowIR.default_component_structure() of the tree under test on every run (harness/c08.py, before the proofs are
    built) and is the table the correspondence run evaluates the model with.  Freshness for that table. *)
@@ -165,10 +182,11 @@ Proof. vm_compute. repeat split; congruence. Qed.
 (* Non-vacuity of the hypotheses of C08_coherent_from / C08_fresh_from / C08_fresh_real: a start state with a
    non-empty coherent cache (the state the history above ends in), continued by a history of the larger alphabet
    that satisfies ok_hist without satisfying forallb op_ok: a disciplined live write (the entry of foo is dropped,
-   the entry of bar survives), a change by the caller of an object it passed in, and answers that differ before
-   and after.  The same with the table of defaults of the running code. *)
+   the entry of bar survives), a change by the caller of an object it passed in, another read-only call (ReadOnly)
+   while the cache holds entries, and answers that differ before and after.  The same with the table of defaults of the running code. *)
 Definition ex_ops2 : list op :=
   [LiveWrite 0 "foo" ["command"; "arguments"] (JStr "live %(x)s"); Invalidate 0 "foo";
+   ReadOnly "instance(platform=p)";
    ReplaceComp 1 "bar" (ex_comp "bar" 1 "%(x)s!" "c"); MutateArg 1 "bar" ["command"; "arguments"] (JStr "B");
    Query "p" 0 "foo"; Query "default" 1 "bar"].
 
@@ -177,8 +195,9 @@ Example C08_nonvacuous_from :
   ok_hist ex_ops2 = true /\ forallb op_ok ex_ops2 = false /\
   map fst (s_cache st0) = ["component:default:stage1:bar"; "component:p:stage0:foo"] /\
   (let r := run lit_matches (JDict []) st0 ex_ops2 in
-   nth_error (snd r) 4 = Some (ORes (qresolve (JDict []) (doc_after (s_doc st0) (firstn 4 ex_ops2)) "p" 0 "foo")) /\
-   nth_error (snd r) 4 <> nth_error (snd (run lit_matches (JDict []) {| s_doc := ex_doc; s_cache := [] |} ex_ops)) 3) /\
-  (exists v, nth_error (snd (run lit_matches real_dflt {| s_doc := ex_doc; s_cache := [] |} (ex_ops ++ ex_ops2))) 8
+   nth_error (snd r) 5 = Some (ORes (qresolve (JDict []) (doc_after (s_doc st0) (firstn 5 ex_ops2)) "p" 0 "foo")) /\
+   map fst (s_cache (fst (run lit_matches (JDict []) st0 (firstn 3 ex_ops2)))) = ["component:default:stage1:bar"] /\
+   nth_error (snd r) 5 <> nth_error (snd (run lit_matches (JDict []) {| s_doc := ex_doc; s_cache := [] |} ex_ops)) 3) /\
+  (exists v, nth_error (snd (run lit_matches real_dflt {| s_doc := ex_doc; s_cache := [] |} (ex_ops ++ ex_ops2))) 9
              = Some (ORes (QOk v)) /\ get_path ["command"; "arguments"] v = Some (JStr "live 2")).
 Proof. vm_compute. repeat split; try congruence. eexists. split; reflexivity. Qed.
